@@ -38,9 +38,16 @@ def programs(depth):
         out.append("stel t = 1; functie f(t) { %s; print(\"f einde\"); t + 100 } stel r = f(t); print(\"terug {}\", r); [r, t]" % "; ".join(b))
         out.append("stel t = 2; functie f(t) { stel k = 0; zolang k < 3 { k += 1; %s } k } f(t)" % "; ".join(b))
     # constructs as values
-    for c, a, b2 in itertools.product(["ja", "nee", "t > 0"], ["1", "stel q = 1", "", "{ 2 }", "zolang nee { 3 }"], ["5", "", "stel z = 0"]):
+    for c, a, b2 in itertools.product(["ja", "nee", "t > 0"], ["1", "stel q = 1", "", "{ 2 }", "zolang nee { 3 }", "1; {}", "1; { }; {}", "{ 1; {} }", "1; stel q = 2", "1; { stel q = 2 }"], ["5", "", "stel z = 0", "7; {}"]):
         out.append("stel t = 1; stel v = als %s { %s } anders { %s }; [v, t]" % (c, a, b2))
         out.append("stel t = 1; stel v = als %s { %s }; v" % (c, a))
+    # what the value of a function is when its body ends in each kind of statement, and of an if whose branches return
+    for tail in ["3", "3; {}", "{ 3 }", "{ 3; {} }", "stel q = 3", "3; stel q = 4", "als ja { 3 }", "als ja { 3; {} }", "zolang nee { }", "3; zolang nee { }", "{}", ""]:
+        out.append("functie g() { %s } [g()]" % tail)
+    for cnd in ("ja", "nee"):
+        for th, el in itertools.product(["10", "antwoord 10", "10; {}", "print(\"t\")"], ["20", "antwoord 20", "", "print(\"e\"); antwoord 21"]):
+            out.append("functie kies(c) { als c { %s } anders { %s } } print(\"{}\", kies(%s)); kies(%s)" % (th, el, cnd, cnd))
+            out.append("functie kies(c) { als c { %s } anders { %s }; 99 } [kies(%s)]" % (th, el, cnd))
     for n in (0, 1, 3):
         out.append("stel i = 0; stel v = zolang i < %d { i += 1; i * 7 }; [v, i]" % n)
         out.append("stel i = 0; stel v = zolang i < %d { i += 1; als i == 2 { stop } i }; [v, i]" % n)
